@@ -120,10 +120,12 @@ func omapRunCase(ctx *Ctx, ops []string, dump bool) {
 		}
 		// C11 monitor, evaluated on the real object: linked nodes = Len + 1 + pinned removed entries,
 		// pinned <= open iterators
-		nodes, del, ok := iterable.VerifChain(im, 100000)
+		nodes, del, ok := iterable.VerifChain(im, 20000)
 		switch {
 		case !ok:
-			ctx.R.Quiet("mon C11-retained", "list from head does not terminate")
+			ctx.R.Quiet("mon C11-retained", "list from head does not terminate (cyclic chain)")
+			ctx.R.Quiet("mon C10-chain-acyclic", "after `"+o+"` the entry list reachable from head is cyclic or longer than 20000 nodes")
+			return // the real object is corrupt: traversals may not terminate
 		case len(nodes) != im.Len()+1+del || del > len(its):
 			ctx.R.Quiet("mon C11-retained", fmt.Sprintf("%d nodes linked, Len=%d, removed-but-pinned=%d, open iterators=%d", len(nodes), im.Len(), del, len(its)))
 		case len(its) == 0 && len(nodes) != im.Len()+1:
